@@ -256,7 +256,8 @@ def run(ck):
         if key in reported:
             return
         reported.add(key)
-        ck.violation(key, what, rep, found)
+        # keys are matched against known_findings.txt: no white space
+        ck.violation("-".join(key.split()), what, rep, found)
 
     stats = {"roundtrip_alphabet": 0, "roundtrip_excluded": {}, "merge": 0, "prefixes": 0, "prefix_outcomes": {},
              "histories": 0, "runs": 0, "crashes_injected": 0, "crash_outcomes": {}, "disagreements": 0}
